@@ -40,7 +40,7 @@ func newCState(op string, k int) *cstate {
 		s.subbed[i] = true
 	}
 	switch op {
-	case "Concat", "ConcatAll":
+	case "Concat", "ConcatAll", "ConcatWith":
 		for i := 1; i < k; i++ {
 			s.subbed[i] = false
 		}
@@ -102,7 +102,7 @@ func (s *cstate) arrive(src int, n N) []cbranch {
 		return true
 	}
 	switch s.op {
-	case "Merge", "MergeAll", "MergeWith", "MergeMapSrc":
+	case "Merge", "MergeAll", "MergeWith", "MergeWith3", "MergeMapSrc":
 		switch n.K {
 		case 'N':
 			return one(n)
@@ -116,7 +116,7 @@ func (s *cstate) arrive(src int, n N) []cbranch {
 			}
 			return one()
 		}
-	case "Concat", "ConcatAll":
+	case "Concat", "ConcatAll", "ConcatWith":
 		switch n.K {
 		case 'N':
 			return one(n)
@@ -132,7 +132,7 @@ func (s *cstate) arrive(src int, n N) []cbranch {
 			c.subbed[c.cur] = true
 			return one()
 		}
-	case "CombineLatest2", "CombineLatest3", "CombineLatestAll":
+	case "CombineLatest2", "CombineLatest3", "CombineLatest4", "CombineLatest5", "CombineLatestAll":
 		switch n.K {
 		case 'N':
 			c.has[src], c.latest[src] = true, n.V
@@ -159,7 +159,7 @@ func (s *cstate) arrive(src int, n N) []cbranch {
 			}
 			return one()
 		}
-	case "Zip2", "Zip3", "Zip", "ZipAll":
+	case "Zip2", "Zip3", "Zip4", "Zip5", "Zip6", "Zip", "ZipAll":
 		switch n.K {
 		case 'N':
 			c.queues[src] = append(c.queues[src], n.V)
@@ -192,7 +192,7 @@ func (s *cstate) arrive(src int, n N) []cbranch {
 			}
 			return one()
 		}
-	case "Race", "Amb":
+	case "Race", "Amb", "RaceWith":
 		if c.winner < 0 {
 			c.winner = src
 			for i := range c.subbed {
@@ -352,7 +352,7 @@ func (s *cstate) arrive(src int, n N) []cbranch {
 	panic("no arrival model for " + s.op)
 }
 
-var c05Ops = []string{"Merge", "MergeAll", "MergeWith", "MergeMapSrc", "Concat", "ConcatAll", "CombineLatest2", "CombineLatest3", "CombineLatestAll", "Zip2", "Zip3", "Zip", "ZipAll", "Race", "Amb", "TakeUntil", "SkipUntil", "BufferWhen", "WindowWhen", "SampleWhen", "ThrottleWhen"}
+var c05Ops = []string{"Merge", "MergeAll", "MergeWith", "MergeMapSrc", "Concat", "ConcatAll", "CombineLatest2", "CombineLatest3", "CombineLatestAll", "Zip2", "Zip3", "Zip4", "Zip5", "Zip6", "Zip", "ZipAll", "CombineLatest4", "CombineLatest5", "MergeWith3", "RaceWith", "ConcatWith", "Race", "Amb", "TakeUntil", "SkipUntil", "BufferWhen", "WindowWhen", "SampleWhen", "ThrottleWhen"}
 
 type arrival struct {
 	Src  int
@@ -424,7 +424,7 @@ func init() {
 		Gen: func(g *Gen) *Scn {
 			sc := &Scn{Family: "C05.conc"}
 			name := c05Ops[g.Intn(len(c05Ops))]
-			for name == "Concat" || name == "ConcatAll" {
+			for name == "Concat" || name == "ConcatAll" || name == "ConcatWith" {
 				name = c05Ops[g.Intn(len(c05Ops))] // lazily subscribed cold sources: nothing concurrent to explore
 			}
 			c := combs[name]
